@@ -71,7 +71,7 @@ class LeanSide:
     @staticmethod
     def audit(prop_id, leanchecker=False):
         """Returns dict(obligations, discharged, failures, axioms, checker_cmd)."""
-        obl = json.load(open(os.path.join(LEAN, "obligations.json")))[prop_id]
+        obl = json.load(open(os.path.join(LEAN, "obligations", prop_id + ".json")))
         module = obl["module"]
         names = obl["theorems"]
         ok, log, _ = LeanSide.build()
